@@ -188,7 +188,7 @@ Restart ==
 
 Corrupt(d, kind) ==
   /\ Step /\ ~Due
-  /\ cfg.kind = "fs" /\ store[d].k = "ent"
+  /\ cfg.kind = "fs" /\ store[d].k # "none"       \* there is a cache file to damage
   /\ store' = [store EXCEPT ![d] = BadEnt(kind)]
   /\ obs' = ObsCorrupt(obs, d, kind, store')
   /\ hist' = H([a |-> "Corrupt", d |-> d, kind |-> kind])
@@ -202,13 +202,17 @@ Finish ==
   /\ IF Gen THEN PrintT(<<"BEH", ToJson([cfg |-> cfg, hist |-> hist'])>>) ELSE TRUE
   /\ UNCHANGED <<cfg, now, pub, store, nextRef, taken>>
 
+\* generation by -simulate picks uniformly among the successor states computed: repeating the rare
+\* actions makes the random behaviours use the clock, restarts and damage as often as publications
+W(k) == IF Gen THEN 1..k ELSE {1}
+
 Next ==
   \/ \E d \in Domains, t \in Txts, p \in Policies : Publish(d, t, p)
-  \/ \E dt \in Dts : Tick(dt)
+  \/ \E dt \in Dts, w \in W(8) : Tick(dt)
   \/ \E d \in Domains, f \in GetFaults : Get(d, f)
   \/ \E plan \in [Domains -> RefFaults] : AutoRefresh(plan)
-  \/ Restart
-  \/ \E d \in Domains, k \in Damages : Corrupt(d, k)
+  \/ \E w \in W(4) : Restart
+  \/ \E d \in Domains, k \in Damages, w \in W(6) : Corrupt(d, k)
   \/ Finish
 
 Spec == Init /\ [][Next]_vars
